@@ -300,3 +300,85 @@ def show(v):
     if t == "f":
         return "<fn>"
     return "<" + " ".join(str(x) for x in v) + ">"
+
+
+# ----------------------------------------------------------------- single elements
+_ELEM_CODE = {}
+
+
+def element_code(key):
+    """Compiled template of one element key, exactly what transpile() emits for it."""
+    setup()
+    c = _ELEM_CODE.get(key)
+    if c is None:
+        src = transpile(key)
+        c = compile(src, "<element %s>" % key, "exec")
+        _ELEM_CODE[key] = c
+    return c
+
+
+_APPLY_NS = None
+
+
+def apply_element(key, args, ctx=None, inputs=(), timeout=10.0):
+    """Run one element on a stack holding `args` (last = top).  Returns (stack, exc, ctx)."""
+    global _APPLY_NS
+    code = element_code(key)
+    if _APPLY_NS is None:
+        _APPLY_NS = base_namespace()
+    ns = _APPLY_NS
+    if ctx is None:
+        ctx = fresh_ctx(inputs)
+    stack = list(args)
+    ctx.stacks.append(stack)
+    ns["stack"] = stack
+    ns["ctx"] = ctx
+    exc = None
+    out = io.StringIO()
+    try:
+        with watchdog(timeout), contextlib.redirect_stdout(out):
+            exec(code, ns)
+    except BaseException as e:  # noqa
+        if isinstance(e, KeyboardInterrupt):
+            raise
+        exc = e
+    return stack, exc, ctx
+
+
+def pyval(v, limit=4096):
+    """Plain-Python rendering of a Vyxal value: int / Fraction / str / nested list.
+    LazyLists are forced (up to limit items)."""
+    import types
+    from fractions import Fraction
+
+    import sympy
+    from vyxal.LazyList import LazyList
+
+    if isinstance(v, bool):
+        return int(v)
+    if isinstance(v, int):
+        return v
+    if isinstance(v, sympy.Basic):
+        if v.is_Integer:
+            return int(v)
+        if v.is_Rational:
+            return Fraction(int(v.p), int(v.q))
+        return ("sympy", str(v))
+    if isinstance(v, str):
+        return v
+    if isinstance(v, LazyList):
+        out = []
+        i = 0
+        while i < limit and v.has_ind(i):
+            out.append(pyval(v.generated[i], limit))
+            i += 1
+        return out
+    if isinstance(v, (list, tuple)):
+        return [pyval(x, limit) for x in v]
+    if isinstance(v, types.FunctionType):
+        return ("fn",)
+    if isinstance(v, float):
+        return ("float", v)
+    if isinstance(v, (range,)):
+        return [pyval(x) for x in v]
+    return ("?", type(v).__name__, repr(v)[:60])
